@@ -152,7 +152,7 @@ func cmdCheck(args []string) {
 	all = append(all, lemmaRes...)
 	dir, _ := os.MkdirTemp("", "kvc-"+*prop)
 	defer os.RemoveAll(dir)
-	opt := dischargeOpts{quickSecs: 10, fullSecs: 10, workdir: dir, jobs: runtime.NumCPU()}
+	opt := dischargeOpts{quickSecs: 10, fullSecs: 20, workdir: dir, jobs: runtime.NumCPU()}
 	if *tier == "thorough" {
 		opt.quickSecs, opt.fullSecs, opt.all, opt.crossSecs = 20, 60, true, 5
 	}
